@@ -65,8 +65,13 @@ class C16(Prop):
                 pre = [names[i] for i in sub]
                 x = rng.random()
                 empty = pre if x < 0.15 else ([rng.choice(pre)] if x < 0.35 else [])
-                yield {"gen": f"noclobber/{cfg['fmt']}" + ("/empty-files" if empty else ""), "cfg": cfg, "opens": base["opens"],
-                       "pre": pre, "empty": empty, "noclobber": True, "other": rng.random() < 0.3}
+                # some pre-existing outputs are symbolic links to files kept elsewhere (an output directory set
+                # up by a workflow manager or copied from an earlier release): existing files all the same
+                y = rng.random()
+                links = pre if y < 0.1 else ([rng.choice(pre)] if y < 0.3 else [])
+                yield {"gen": f"noclobber/{cfg['fmt']}" + ("/empty-files" if empty else "") + ("/links" if links else ""),
+                       "cfg": cfg, "opens": base["opens"], "pre": pre, "empty": empty, "links": links,
+                       "noclobber": True, "other": rng.random() < 0.3}
             for _ in range(3):
                 k = rng.randint(0, n)
                 yield {"gen": f"clobber/{cfg['fmt']}", "cfg": cfg, "opens": base["opens"],
@@ -113,7 +118,13 @@ class C16(Prop):
         for name in case["pre"]:
             # some pre-existing files are empty (a zero-length leftover is still an existing file)
             data = b"" if name in case.get("empty", []) else f"PRE-EXISTING {name}\n".encode()
-            (out / name).write_bytes(data)
+            if name in case.get("links", []):
+                kept = out.parent / "kept"
+                kept.mkdir(exist_ok=True)
+                (kept / name).write_bytes(data)
+                (out / name).symlink_to(kept / name)
+            else:
+                (out / name).write_bytes(data)
             pre[name] = C.digest(data)
         if case.get("other"):
             (out / "unrelated.txt").write_bytes(b"keep me\n")
@@ -127,8 +138,11 @@ class C16(Prop):
         m = re.search(r"(?:log file|Output file) '([^']+)' already exists", r.stderr + (r.output or ""))
         if m:
             named = m.group(1).rsplit("/", 1)[-1]
+        lost_links = [n for n in case.get("links", []) if not (out / n).is_symlink()
+                      or C.digest((out.parent / "kept" / n).read_bytes()) != pre[n]]
+        shutil.rmtree(out.parent / "kept", ignore_errors=True)
         return {"exit": r.exit_code, "named": named, "pre": pre, "after": after,
-                "exc": r.exception}
+                "exc": r.exception, "lost_links": lost_links}
 
     def term(self, case, obs):
         def t(names):
@@ -147,6 +161,8 @@ class C16(Prop):
             if case["noclobber"] or name not in outs:
                 if obs["after"].get(name) != d:
                     return f"pre-existing file {name} was altered or removed"
+        if case["noclobber"] and obs.get("lost_links"):
+            return f"pre-existing symbolic links {obs['lost_links']} were replaced or their targets altered"
         if case["noclobber"]:
             if pre_outputs:
                 if obs["exit"] == 0:
